@@ -14,7 +14,7 @@ if not ok:
     sys.exit(1)
 os.makedirs(dst, exist_ok=True)
 for f in ('patch.diff', 'demo.py', 'notes.md'):
-    if os.path.exists(os.path.join(src, f)):
+    if os.path.exists(os.path.join(src, f)) and os.path.abspath(os.path.join(src, f)) != os.path.abspath(os.path.join(dst, f)):
         shutil.copy(os.path.join(src, f), os.path.join(dst, f))
 notes = open(os.path.join(src, 'notes.md')).read() if os.path.exists(os.path.join(src, 'notes.md')) else ''
 checks = {k[6:]: {'caught': v['caught'], 'exit': v['exit'], 'first_lines': v['lines'][:2]} for k, v in res.items() if k.startswith('check_')}
@@ -28,5 +28,15 @@ meta = {
             'PRYSM_REPO=<scratch> vcheck.py %s --tier quick' % prop],
     'checks': checks,
 }
+old = os.path.join(dst, 'meta.json')
+if os.path.exists(old):
+    try:
+        o = json.load(open(old))
+        if o.get('history'):
+            meta['history'] = o['history']
+        if o.get('first_evaluation') or o.get('checks'):
+            meta['first_evaluation'] = o.get('first_evaluation') or {k: v.get('caught') for k, v in o['checks'].items()}
+    except Exception:  # noqa
+        pass
 json.dump(meta, open(os.path.join(dst, 'meta.json'), 'w'), indent=1)
 print('KEPT', prop, name, {k: v['caught'] for k, v in checks.items()})
